@@ -721,3 +721,80 @@ func predicateImplies(cl *ssa.Call, val bool, depth int) []BoolFact {
 	}
 	return out
 }
+
+
+var pkgCallersMemo = map[*ssa.Function][]ssa.Instruction{}
+
+// pkgCallers returns the call sites (plain calls) of an unexported, never-address-taken function or method within its
+// package, nil if it may be called in other ways.
+func pkgCallers(fn *ssa.Function) []ssa.Instruction {
+	if r, ok := pkgCallersMemo[fn]; ok {
+		return r
+	}
+	pkgCallersMemo[fn] = nil
+	if fn == nil || fn.Pkg == nil || fn.Parent() != nil || fn.Object() == nil || fn.Object().Exported() {
+		return nil
+	}
+	var sites []ssa.Instruction
+	bad := false
+	for _, g := range PkgFuncs(fn.Pkg) {
+		EachInstr(g, func(in ssa.Instruction) {
+			if cc := CC(in); cc != nil && cc.StaticCallee() == fn {
+				if _, isCall := in.(*ssa.Call); isCall {
+					sites = append(sites, in)
+				} else if _, isDefer := in.(*ssa.Defer); isDefer {
+					sites = append(sites, in)
+				} else {
+					bad = true
+				}
+				return
+			}
+			for _, op := range in.Operands(nil) {
+				if op != nil && *op == ssa.Value(fn) {
+					bad = true
+				}
+			}
+		})
+	}
+	if bad {
+		return nil
+	}
+	pkgCallersMemo[fn] = sites
+	return sites
+}
+
+// ThroughReturns expands a value that is the result of a same-package function into the values that function returns
+// (the matching result of every return; three levels); other values are returned as they are.
+func ThroughReturns(v ssa.Value) []ssa.Value {
+	var out []ssa.Value
+	var walk func(v ssa.Value, d int)
+	walk = func(v ssa.Value, d int) {
+		cl, idx := CallOfValue(v)
+		if cl == nil || d > 3 {
+			out = append(out, v)
+			return
+		}
+		sc := cl.Call.StaticCallee()
+		if sc == nil || len(sc.Blocks) == 0 || cl.Parent() == nil || PkgOf(sc) != PkgOf(cl.Parent()) {
+			out = append(out, v)
+			return
+		}
+		if idx < 0 {
+			idx = 0
+		}
+		n := 0
+		for _, b := range sc.Blocks {
+			ret, ok := b.Instrs[len(b.Instrs)-1].(*ssa.Return)
+			if !ok || idx >= len(ret.Results) {
+				continue
+			}
+			n++
+			walk(ret.Results[idx], d+1)
+		}
+		if n == 0 {
+			out = append(out, v)
+		}
+	}
+	walk(v, 0)
+	return out
+}
